@@ -288,6 +288,11 @@ class ManageSieveConnection:
             return Response(Condition.NO, text='Bad command.')
         resp = Response(Condition.OK)
         await self._write_response(resp)
+        # anything received before the handshake was not protected by it, and
+        # must not be read as part of the session the handshake protects
+        buffered = getattr(self.reader, '_buffer', None)
+        if buffered:
+            buffered.clear()
         await self.writer.start_tls(ssl_context)
         self._print('%d <->| %s', b'<TLS handshake>')
         self._offer_starttls = False
